@@ -117,6 +117,20 @@ void vx_y_all(const T* m, int f, int s, double* out)
    // the running masses the getter used (same calls, same arguments)
    for (int i = 0; i < 3; i++) out[18 + i] = vx_mf(m, f, s, i);
 }
+double vx_mbf(const gm2calc::thdm::Mass_basis* b, int k)
+{
+   switch (k) {
+   case 0: return b->mh;
+   case 1: return b->mH;
+   case 2: return b->mA;
+   case 3: return b->mHp;
+   case 4: return b->sin_beta_minus_alpha;
+   case 5: return b->lambda_6;
+   case 6: return b->lambda_7;
+   case 7: return b->tan_beta;
+   default: return b->m122;
+   }
+}
 int vx_type(const T* m) { return static_cast<int>(m->yukawa_type); }
 void vx_ctor_mass(T* m, const gm2calc::thdm::Mass_basis* b, const gm2calc::SM* sm, const gm2calc::thdm::Config* cfg) { new (m) T(*b, *sm, *cfg); }
 void vx_ctor_gauge(T* m, const gm2calc::thdm::Gauge_basis* b, const gm2calc::SM* sm, const gm2calc::thdm::Config* cfg) { new (m) T(*b, *sm, *cfg); }
